@@ -126,9 +126,19 @@ func (t Templates) ServeHTTP(w http.ResponseWriter, r *http.Request) (int, error
 		// get the modification time in preparation for http.ServeContent
 		modTime, _ := time.Parse(http.TimeFormat, w.Header().Get("Last-Modified"))
 
+		// The page was rendered for this very request and goes out with the
+		// status the handler chose; the request's preconditions and ranges,
+		// which ServeContent would evaluate against it, do not apply.
+		plain := new(http.Request)
+		*plain = *r
+		plain.Header = r.Header.Clone()
+		for _, h := range []string{"Range", "If-Range", "If-Match", "If-None-Match", "If-Modified-Since", "If-Unmodified-Since"} {
+			plain.Header.Del(h)
+		}
+
 		// at last, write the rendered template to the response; make sure to use
 		// use the proper status code, since ServeContent hard-codes 2xx codes...
-		http.ServeContent(rb.StatusCodeWriter(w), r, templateName, modTime, bytes.NewReader(buf.Bytes()))
+		http.ServeContent(rb.StatusCodeWriter(w), plain, templateName, modTime, bytes.NewReader(buf.Bytes()))
 
 		return 0, nil
 	}
